@@ -33,6 +33,11 @@ type Ctx struct {
 	closureSite map[*ssa.Function]*ssa.MakeClosure
 	NPkgs       int
 	Files       []string
+	// new-function transparency (inline.go)
+	allKnown bool // treat every function as known (controls package)
+	frames   []ssa.CallInstruction
+	siteMemo map[*ssa.Function]ssa.CallInstruction
+	siteDone map[*ssa.Function]bool
 }
 
 func loadCtx(dir string, pkgPath string) (*Ctx, error) {
@@ -88,6 +93,7 @@ func loadCtx(dir string, pkgPath string) (*Ctx, error) {
 	for _, f := range target.GoFiles {
 		c.Files = append(c.Files, f)
 	}
+	c.allKnown = pkgPath != flagsPath
 	c.collectFuncs()
 	c.collectConsts()
 	return c, nil
